@@ -99,6 +99,9 @@ def _build(src_path, dst_path):
     grp.tags.append(tg)
     grp.multi_tags.append(mt)
     b.metadata = s
+    # an earlier copy that kept its ids: two different entities of one hierarchy share an id
+    b.create_data_array("a1k", copy_from=a1)
+    s.copy_section(sub, keep_id=True, name="subk")
     f.create_block("other", "tb").create_data_array("a1", "ta", data=[7.0])
     g = nixio.File(dst_path, "w")
     g.create_section("taken", "x")
